@@ -417,7 +417,7 @@ func (g *Globals) rangeFact(t types.Type, term string) string {
 			return "(and (<= " + lo + " " + term + ") (<= " + term + " " + hi + "))"
 		}
 	case *types.Slice:
-		return fmt.Sprintf("(and (<= 0 (sl_off %s)) (<= 0 (sl_len %s)) (<= (sl_len %s) (sl_cap %s)) (>= (sl_arr %s) 0) (=> (= (sl_arr %s) 0) (= (sl_cap %s) 0)))", term, term, term, term, term, term, term)
+		return fmt.Sprintf("(and (<= 0 (sl_off %s)) (<= 0 (sl_len %s)) (<= (sl_len %s) (sl_cap %s)) (<= (sl_cap %s) 9223372036854775807) (>= (sl_arr %s) 0) (=> (= (sl_arr %s) 0) (= (sl_cap %s) 0)))", term, term, term, term, term, term, term, term)
 	case *types.Pointer, *types.Map, *types.Chan:
 		return "(>= " + term + " 0)"
 	case *types.Interface:
